@@ -177,7 +177,9 @@ func (w *concWorld) call(o op) string {
 		for i, k := range o.ks {
 			ks[i] = htlcswitch.Keystone{InKey: u.inKey(k.in), OutKey: u.outKey(k.out)}
 		}
-		return errClass(cm.OpenCircuits(ks...))
+		err := cm.OpenCircuits(ks...)
+		poisonKeystones(ks)
+		return errClass(err)
 	case "trim":
 		return errClass(cm.TrimOpenCircuits(lnwireScid(u.OutChans[o.out.ch]), uint64(w.s.e.cmt[o.out.ch])))
 	case "close":
@@ -197,7 +199,9 @@ func (w *concWorld) call(o op) string {
 		for i, in := range o.ins {
 			ks[i] = u.inKey(in)
 		}
-		return errClass(cm.DeleteCircuits(ks...))
+		err := cm.DeleteCircuits(ks...)
+		poisonKeys(ks)
+		return errClass(err)
 	case "lookup":
 		if cm.LookupCircuit(u.inKey(o.ins[0])) == nil {
 			return "nil"
